@@ -297,7 +297,7 @@ fn main() {
     {
         let lens = tu_verif::enumerate::threshold_lengths(run.pick(10, 12));
         let pats: [&[&str]; 6] = [&["a"], &["a", " "], &["ä", "a", " ", " "], &["a", "\t", "\u{a0}", "e\u{301}"], &[" ", "a", "a", "a"], &["\u{0}", " ", "\u{10ffff}", "\u{7f}"]];
-        run.bounds.insert("long_phase".into(), json!(format!("lengths {lens:?} (in symbols) x (6 repeated patterns, 5 texts around one grapheme cluster of that many code points) x use_graphemes")));
+        run.bounds.insert("long_phase".into(), json!(format!("lengths {lens:?} (in symbols) x (6 repeated patterns, 5 texts around one grapheme cluster of that many code points, one repeated 2-, 3-, 4-byte character at every byte alignment alone and between whitespace) x use_graphemes")));
         for (k, n) in lens.iter().enumerate() {
             if !run.unit(units + (patterns.len() + k) as u64) {
                 continue;
@@ -310,7 +310,9 @@ fn main() {
             }
             // one grapheme cluster of n code points, alone and between whitespace runs
             let w = format!("a{}", "\u{301}".repeat(*n - 1));
-            for text in [w.clone(), format!(" {w} "), format!("x {w}  y"), format!("{w}\t{w}"), format!("\u{a0}{w}{w}\r\n")] {
+            let mut aligned = tu_verif::enumerate::byte_aligned_texts(*n);
+            aligned.extend(tu_verif::enumerate::byte_aligned_texts(*n).into_iter().map(|t| format!(" {t}  {t}\u{a0}")));
+            for text in [w.clone(), format!(" {w} "), format!("x {w}  y"), format!("{w}\t{w}"), format!("\u{a0}{w}{w}\r\n")].into_iter().chain(aligned) {
                 for g in [false, true] {
                     check(&mut run, &text, g);
                 }
